@@ -16,7 +16,7 @@ type c05 struct{ base }
 
 func init() {
 	runner.Register(&c05{base{id: "C05", level: "exploration",
-		rule: "per case: a table (hash+range, 2 GSIs, 1 LSI) holding 0-5 bystander items and a target key that is present or absent; op in {PutItem, UpdateItem, DeleteItem} with a condition (existence guards, value comparisons, compound) chosen so that its truth on some bystander is the OPPOSITE of its truth on the target whenever possible. Oracle: model condition on the target (or empty) item; a refused write must leave the full observation (every key, base scan, every index scan, counts) byte-identical; ConditionalCheckFailed.Item (SDK v2 UpdateItem with ALL_OLD) must equal the stored item. non-trivial = truth differs between target and >=1 bystander (or table is empty / target absent with bystanders present); distinct by (adapter, op, target present?, condition skeleton, truth on target).",
+		rule: "per case: a table (hash+range, 2 GSIs, 1 LSI) holding 0-5 bystander items and a target key that is present or absent (in a third of the cases the target and one bystander are one of 783 key pairs that collide under a plausible-but-wrong composite-key encoding); op in {PutItem, UpdateItem, DeleteItem} with a condition (existence guards, value comparisons, compound) chosen so that its truth on some bystander is the OPPOSITE of its truth on the target whenever possible. Oracle: model condition on the target (or empty) item; a refused write must leave the full observation (every key, base scan, every index scan, counts) byte-identical; ConditionalCheckFailed.Item (SDK v2 UpdateItem with ALL_OLD) must equal the stored item. non-trivial = truth differs between target and >=1 bystander (or table is empty / target absent with bystanders present); distinct by (adapter, op, target present?, condition skeleton, truth on target).",
 		assumptions: commonAssumptions}})
 }
 
@@ -91,6 +91,23 @@ func (p *c05) RunCase(ctx *runner.Ctx) runner.CaseResult {
 		if !used[th+"|"+tr] {
 			break
 		}
+	}
+	if r.Intn(3) == 0 {
+		// confusable mode: the target and one bystander are a pair of keys that collide under a plausible but
+		// wrong composite-key encoding (mon.ConfusablePairs)
+		cp := mon.Pick(r, mon.ConfusablePairs())
+		k1, k2 := cp[0], cp[1]
+		if r.Intn(2) == 0 {
+			k1, k2 = k2, k1
+		}
+		th, tr = k1[0], k1[1]
+		if !used[k2[0]+"|"+k2[1]] {
+			used[k2[0]+"|"+k2[1]] = true
+			it := mk(k2[0], k2[1], 50)
+			bystanders = append(bystanders, it)
+			hist = append(hist, adapt.Op{Kind: adapt.OpPut, Table: spec.Name, Item: it})
+		}
+		x.r.Counters["confusable_key_cases"]++
 	}
 	present := r.Intn(3) != 0
 	var target val.Item
